@@ -492,8 +492,31 @@ impl<'a, 'b> QGen<'a, 'b> {
     fn scalar_item(&mut self, scope: &Scope) -> (E, ColMode, bool, bool) {
         let nn = scope.nodes.len();
         let nr = scope.rels.len();
-        let choice = self.t.weighted(&[6, 2, 2, 1, 1, 1, 1, 1, 1]);
+        let choice = self.t.weighted(&[6, 2, 2, 1, 1, 1, 1, 1, 1, 1, 1]);
         match choice {
+            9 if nn > 0 => {
+                // searched CASE over a generated predicate; branches from one property domain
+                let v = scope.nodes[self.t.choose(nn)].clone();
+                let cond = self.predicate(scope, 0);
+                let key = ["k", "s", "q"][self.t.choose(3)];
+                let then = if self.t.chance(1, 2) { E::Prop(v.clone(), key.into()) } else { E::Lit(some_value_for(key, self.t)) };
+                let els = match self.t.choose(3) {
+                    0 => None,
+                    1 => Some(Box::new(E::Prop(v, key.into()))),
+                    _ => Some(Box::new(E::Lit(some_value_for(key, self.t)))),
+                };
+                self.f.tag("case_expr");
+                (E::Case(vec![(cond, then)], els), ColMode::Exact, false, false)
+            }
+            10 if nn > 0 => {
+                let v = scope.nodes[self.t.choose(nn)].clone();
+                self.f.tag("scalar_fn");
+                match self.t.choose(3) {
+                    0 => (E::Func("abs".into(), vec![E::Arith(ArOp::Sub, Box::new(E::Prop(v, "k".into())), Box::new(E::Lit(V::Int(2))))]), ColMode::Exact, true, true),
+                    1 => (E::Func("toString".into(), vec![E::Prop(v, "k".into())]), ColMode::Exact, true, true),
+                    _ => (E::Func("size".into(), vec![E::Prop(v, "s".into())]), ColMode::Exact, true, true),
+                }
+            }
             0 => match self.prop_of(scope) {
                 Some((e, _)) => {
                     self.f.tag("ret_prop");
